@@ -37,6 +37,14 @@ def rd_parse(Chem, s):
     return Chem.MolFromSmiles(s, ps)
 
 
+def safe_norm(D, x):
+    """normal form of a bridge result; a result the library cannot normalise is a finding, not a checker error"""
+    try:
+        return D.norm(x.copy()), None
+    except Exception as e:
+        return None, f'{type(e).__name__}: {str(e)[:100]}'
+
+
 def bridge_view(m):
     """copy of m restricted to what the bridge documents as transferable: allene labels and cumulene (C=C=C=C) cis/trans labels
     removed ('allenes are not supported', 'check for simple cis-trans' in to_rdkit_molecule); returns (copy, removed)"""
@@ -89,7 +97,7 @@ def check_to_attrs(Chem, m, rd, tag):
                 out.append(('to:coordinates', f'atom {n}: ({c.x:.4f}, {c.y:.4f})', f'({p.x:.4f}, {p.y:.4f}, {p.z:.4f})'))
         if out:
             break
-    idx = {a.GetAtomMapNum(): a.GetIdx() for a in rd.GetAtoms()}
+    idx = {n: i for i, n in enumerate(m)}    # atoms are added in the order of m.atoms()
     for x, y, b in m.bonds():
         rb = rd.GetBondBetweenAtoms(idx[x], idx[y])
         if rb is None:
@@ -102,8 +110,8 @@ def check_to_attrs(Chem, m, rd, tag):
             dx, dy = m.atom(x).atomic_symbol in NONMETAL, m.atom(y).atomic_symbol in NONMETAL
             if ok and t == 'DATIVE' and dx != dy:
                 donor = x if dx else y
-                if rb.GetBeginAtom().GetAtomMapNum() != donor:
-                    out.append(('to:dative-direction', f'{x}-{y}: donor {donor}', rb.GetBeginAtom().GetAtomMapNum()))
+                if rb.GetBeginAtomIdx() != idx[donor]:
+                    out.append(('to:dative-direction', f'{x}-{y}: donor {donor}', f'begin atom idx {rb.GetBeginAtomIdx()}'))
         elif o == 4:
             ok = t == 'AROMATIC'
         elif rb.GetIsAromatic():
@@ -159,7 +167,7 @@ def check_one(a):
     Chem = _rd()
     from rdkit.Chem import AllChem
     s, form = a['smiles'], a['form']
-    info = {'gap_hits': 0, 'stereo': 0, 'chython_rejects': 0, 'rdkit_rejects': 0, 'coordinate': 0, 'unsupported_labels': 0, 'noncarbon_rdkit_centres': 0}
+    info = {'gap_hits': 0, 'stereo': 0, 'chython_rejects': 0, 'rdkit_rejects': 0, 'coordinate': 0, 'unsupported_labels': 0, 'noncarbon_rdkit_centres': 0, 'gap_inputs': 0}
     vs = []
     wit = {'replay': 'check_one', 'args': a}
     tag = f'{s}|{form}'
@@ -167,6 +175,7 @@ def check_one(a):
     def fire(field, what, e=None, g=None, gap_mol=None, cage=False):
         if gap_mol is not None and G.in_gap(gap_mol, cage=cage):
             info['gap_hits'] += 1
+            info['gap_inputs'] = 1
             return
         vs.append(V(f'c20:{field}', f'c20:{field}:{tag}', f'{what} [{s}, {form} form]: expected {e!r}, got {g!r}', wit, {'expected': e, 'got': g}))
 
@@ -206,9 +215,7 @@ def check_one(a):
         rd = to_rdkit_molecule(m)
         rd0 = to_rdkit_molecule(m, keep_mapping=False)
     except Exception as e:
-        if coordinate and type(e).__module__.startswith('rdkit'):
-            info['rdkit_rejects'] = 1   # RDKit's valence model refuses the complex: not accepted by both toolkits
-            return vs, info, None
+        # (coordinate-bond complexes of the generator list are all sanitised by RDKit on the unchanged tree: a refusal is a finding)
         fire('to:exc', f'to_rdkit_molecule raises {type(e).__name__}: {str(e)[:120]}', 'a molecule', type(e).__name__)
         return vs, info, m
     for field, e, g in check_to_attrs(Chem, m, rd, tag):
@@ -237,14 +244,15 @@ def check_one(a):
         back2.remap({k: k + big for k in mp})
         back2.remap({k + big: v for k, v in mp.items()})
     # RDKit re-perceives aromaticity with its own model (broader than thiele): compare in the library's normal form
-    eb, gb = O.snap(D.norm(mv.copy())), O.snap(D.norm(back2.copy()))
+    nb2, err = safe_norm(D, back2)
+    eb, gb = O.snap(D.norm(mv.copy())), O.snap(nb2) if nb2 is not None else err
     if eb != gb:
         fire('roundtrip:structure', 'from_rdkit(to_rdkit(m)) differs from m atom by atom', str(eb)[:300], str(gb)[:300])
     else:
         es, gs = O.stereo_snap(mv), O.stereo_snap(back2)
         if es != gs:
             fire('roundtrip:configuration', 'from_rdkit(to_rdkit(m)) changes per-centre configuration', es, gs, gap_mol=m)
-        nb, nm = D.norm(back.copy()), D.norm(mv.copy())
+        nb, nm = D.norm(back.copy()), D.norm(mv.copy())     # (back2 normalised fine above)
         if not (nb == nm) or str(nb) != str(nm) or hash(nb) != hash(nm):
             fire('roundtrip:equality', 'from_rdkit(to_rdkit(m)) != m (library canonical SMILES, both normalised)', str(nm), str(nb), gap_mol=m, cage=True)
     # to o from o to: canonical-SMILES-equal
@@ -297,16 +305,19 @@ def check_one(a):
                 f2 = D.norm(smiles(cx))
             except Exception:
                 continue
-            f1 = D.norm(f.copy())
+            f1, err = safe_norm(D, f)
+            if f1 is None:
+                fire('from:invalid-result', f'from_rdkit_molecule({label}) returns a molecule the library cannot normalise (kekule/thiele)', str(f2), err)
+                continue
             if str(f1) != str(f2):
                 fire('from:canonical', f'str(from_rdkit({label})) differs from str(smiles(MolToSmiles(rd)))', str(f2), str(f1), gap_mol=f2, cage=True)
             # renumbered RDKit molecule
             perm = list(range(rdm.GetNumAtoms()))
             r.shuffle(perm)
             try:
-                f3 = D.norm(from_rdkit_molecule(Chem.RenumberAtoms(rdm, perm)))
-                if str(f3) != str(f1):
-                    fire('from:renumbering', f'str(from_rdkit({label})) changes under RenumberAtoms', str(f1), str(f3), gap_mol=f2, cage=True)
+                f3, err = safe_norm(D, from_rdkit_molecule(Chem.RenumberAtoms(rdm, perm)))
+                if f3 is None or str(f3) != str(f1):
+                    fire('from:renumbering', f'str(from_rdkit({label})) changes under RenumberAtoms', str(f1), str(f3) if f3 is not None else err, gap_mol=f2, cage=True)
             except Exception as e:
                 fire('from:exc-renumbered', f'from_rdkit_molecule raises {type(e).__name__} on a renumbered RDKit molecule', 'a molecule', str(e)[:120])
             # to o from = id on RDKit's side (carbon centres only: other centres are outside the library's model)
